@@ -142,7 +142,8 @@ func c03CompositionSpecs() []*edt.Spec {
 		{
 			// [2^k]P: k doublings, the first k−1 stay projective, the last returns to extended coordinates
 			Pkg: "curve", Func: "(*EdwardsPoint).mulByPow2", Opaque: op, SymLoops: true, MinPaths: 3,
-			Vars: map[string]string{"($k == 0)": "kZero", "(φL0.0 < ($k - 1))": "more"},
+			// k−1 inner doublings: counted 0..k−2 or 1..k−1 (the start is checked against the bound below)
+			Vars: map[string]string{"($k == 0)": "kZero", "(φL0.0 < ($k - 1))": "more", "(φL0.0 < $k)": "more"},
 			Classify: func(p *edt.Path, out string, e *edt.Env) string {
 				switch {
 				case p.Panic != nil:
@@ -171,8 +172,18 @@ func c03CompositionSpecs() []*edt.Spec {
 					}
 					return false
 				}
-				if !has("loop L0: A<curve.projectivePoint>#0 enters as projectivePoint.SetEdwards($t)") || !has("loop L0: φL0.0 starts as 0") {
-					return "the doubling chain must start from the projective form of the operand with the counter at 0"
+				start0, start1 := has("loop L0: φL0.0 starts as 0"), has("loop L0: φL0.0 starts as 1")
+				bound0, bound1 := false, false
+				for _, l := range p.Lits {
+					switch l.Atom {
+					case "(φL0.0 < ($k - 1))":
+						bound0 = true
+					case "(φL0.0 < $k)":
+						bound1 = true
+					}
+				}
+				if !has("loop L0: A<curve.projectivePoint>#0 enters as projectivePoint.SetEdwards($t)") || !((start0 && bound0) || (start1 && bound1)) {
+					return "the doubling chain must start from the projective form of the operand and run k-1 inner doublings"
 				}
 				if !has(dbl) {
 					return "each step must double the running projective point"
